@@ -217,6 +217,9 @@ class Bisync:
         import semantic_anchors
         for cb, ct in self.afl.calls_to(*sorted({COPY} | semantic_anchors.atomic_publishers(self.F))):
             out.append((cb, ct, self.classify_path(ct['args'][0]), self.classify_path(ct['args'][1])))
+        # a link places (src's) complete content at dst too - whether it may be used is C08's matter, here it is a site
+        for cb, ct in self.afl.calls_to('std::fs::hard_link'):
+            out.append((cb, ct, self.classify_path(ct['args'][0]), self.classify_path(ct['args'][1])))
         return out
 
     def arm_of(self, bb):
